@@ -1888,7 +1888,7 @@ class Population:
                     denom_par = parset.pars[obj.denominator.name]
                     b[i] *= denom_par.interpolate(t_init, pop_name=self.name)[0] * denom_par.y_factor[self.name] * denom_par.meta_y_factor
                 for inc in obj.get_included_comps():
-                    A[i, comp_indices[inc.name]] = 1.0
+                    A[i, comp_indices[inc.name]] += 1.0  # nb. a compartment that is included more than once (e.g. directly and via a nested characteristic) counts each time, as it does in the characteristic's value
             else:
                 A[i, comp_indices[obj.name]] = 1.0
 
